@@ -443,6 +443,7 @@ class Arr(object):
     def __truediv__(s, o): return s._binop(o, "truediv")
     def __rtruediv__(s, o): return s._binop(o, "truediv", True)
     def __pow__(s, o): return s._binop(o, "pow")
+    def __rpow__(s, o): return s._binop(o, "pow", True)
     def __lt__(s, o): return s._binop(o, "lt")
     def __le__(s, o): return s._binop(o, "le")
     def __gt__(s, o): return s._binop(o, "gt")
@@ -1171,6 +1172,23 @@ def abs_(a):
     return abs(a)
 
 
+def arange(*a, **k):
+    return delegate("arange", *a, **k)
+
+
+def dot(a, b):
+    if not isinstance(a, Arr):
+        a = array(a)
+    if not isinstance(b, Arr):
+        b = array(b)
+    if a.ndim == 1 and b.ndim == 1:
+        a, b = a.fix_len(), b.fix_len()
+        if a.shape != b.shape:
+            raise ValueError("shapes %s and %s not aligned" % (a.shape, b.shape))
+        return sum_(a * b)
+    return delegate("dot", a, b)
+
+
 def _real(x):
     """convert shim values to real numpy / Python values (concretising)."""
     if isinstance(x, Arr):
@@ -1338,7 +1356,7 @@ def make_module(random_impl=None):
     """the object that `import numpy` / `from numpy import ...` resolves to inside loaded modules."""
     m = types.ModuleType("numpy")
     m.__dict__.update(dict(
-        array=array, asarray=array, zeros=zeros, ones=ones, zeros_like=zeros_like, where=where, sum=sum_, max=max_,
+        array=array, asarray=array, arange=arange, dot=dot, zeros=zeros, ones=ones, zeros_like=zeros_like, where=where, sum=sum_, max=max_,
         min=min_, amax=max_, amin=min_, argmax=argmax, argsort=argsort, all=all_, any=any_, abs=abs_, absolute=abs_,
         unique=unique, intersect1d=intersect1d, union1d=union1d, median=median, log=log, log2=log2,
         ndarray=Arr, int64=_rnp.int64, float64=_rnp.float64, bool_=_rnp.bool_, pi=_rnp.pi, e=_rnp.e, inf=_rnp.inf,
